@@ -304,10 +304,25 @@ def run(ck, F):
     expect('ipr::Transfer', 'convention', 'this.second()')
     eqrule.check_equalities(ck, F, 'C15')
     eqrule.check_inequalities(ck, F, 'C15')
+    one_string_rule(ck, F, 'C15')
+    # size / emptiness / begin-end of a scope are those of its store of declarations
+    import c09 as _c09
+    _c09.scope_size_rule(ck, F, 'C15')
+    import words as _words
+    _W, _kw, _strays = _words.static_words_outside_table(F)
+    R_tab_only = ck.rule('C15.static-words-in-the-table', 'every statically allocated word (an object of the class of the reserved-word table\'s '
+                         'elements) is an element of that table: interning recognises a reserved spelling by searching the table, so a word '
+                         'kept anywhere else -- a constant of its own, a data member -- is a second Identifier / Logogram / String for its spelling', floor=1)
+    ck.check(R_tab_only, 'known_words', not _strays, f'object(s) of {contracts.short(_W)} outside {_kw["q"]}: ' + '; '.join(f'{w} [{l}]' for w, l in _strays[:4]),
+             loc=(_strays[0][1] if _strays else _kw['loc']))
+    # named aliases of the interface: each forwards to a slot accessor (recorded; judged in C02 through contracts)
+
+
+def one_string_rule(ck, F, prefix):
     # equality of logograms / conventions / linkages / transfers is identity of the String spelled: it holds exactly for equal
     # spellings only if equal spellings are one String -- including the empty spelling, which the built-in natural convention uses
     import words
-    R_sp = ck.rule('C15.one-string-per-spelling', 'the value equalities bottom out in the identity of a String: interning answers the '
+    R_sp = ck.rule(f'{prefix}.one-string-per-spelling', 'the value equalities bottom out in the identity of a String: interning answers the '
                    'empty spelling with the one process-wide empty String and a reserved spelling with its reserved-word node, so that '
                    'values spelled alike by the library and by the client compare equal', floor=2)
     ok, why, fi = words.empty_word_outcome(F)
@@ -317,14 +332,6 @@ def run(ck, F):
     bad = [(w, [x.decode('utf-8', 'replace') for x in ps[:3]]) for w, ps, _s in rts if ps]
     ck.check(R_sp, 'intern(reserved word)', bool(rts) and not bad, f'{fi["id"]}: the reserved spelling(s) {[b[1] for b in bad]} get a second String',
              loc=fi['loc'], fn=fi['id'])
-    import words as _words
-    _W, _kw, _strays = _words.static_words_outside_table(F)
-    R_tab_only = ck.rule('C15.static-words-in-the-table', 'every statically allocated word (an object of the class of the reserved-word table\'s '
-                         'elements) is an element of that table: interning recognises a reserved spelling by searching the table, so a word '
-                         'kept anywhere else -- a constant of its own, a data member -- is a second Identifier / Logogram / String for its spelling', floor=1)
-    ck.check(R_tab_only, 'known_words', not _strays, f'object(s) of {contracts.short(_W)} outside {_kw["q"]}: ' + '; '.join(f'{w} [{l}]' for w, l in _strays[:4]),
-             loc=(_strays[0][1] if _strays else _kw['loc']))
-    # named aliases of the interface: each forwards to a slot accessor (recorded; judged in C02 through contracts)
 
 
 def find_call(t, name):
